@@ -4,7 +4,7 @@
 (* thread (phase granularity), of the environment, of Crash and of the       *)
 (* phases of NewCircuitMap.                                                  *)
 EXTENDS CircuitMap, Json
-CONSTANTS MaxLen, CloseAfter
+CONSTANTS MaxLen, CloseAfter, CrashEvery
 VARIABLE hist
 
 B(x) == IF x THEN 1 ELSE 0
@@ -20,14 +20,22 @@ KeySeq == Ascending({k[1] * 100 + k[2] : k \in InKeys})
 Pivot  == LET n == KeySeq[(Len(hist) % Len(KeySeq)) + 1] IN <<n \div 100, n % 100>>
 PendKeys == {p.in : p \in pending}
 Less(a, b) == a[1] < b[1] \/ (a[1] = b[1] /\ a[2] < b[2])
-GCommit == {b \in Batches : b[1] = Pivot}
+HalfOpen == {p.in : p \in {q \in pending : q.out = None}}
+NextKey(k) == LET later == {x \in InKeys : Less(k, x)} IN
+              IF later = {} THEN k ELSE CHOOSE x \in later : \A y \in later : x = y \/ Less(x, y)
+Sometimes(n) == Len(hist) % n = 0
+GCommit == {b \in Batches : b[1] = Pivot /\ (Len(b) = 2 => b[2] \in {Pivot, NextKey(Pivot)})}
 GDelete == {b \in Batches : /\ Injective(b)
-                            /\ \A j \in DOMAIN b : b[j] \in PendKeys \cup {Pivot}
-                            /\ Len(b) = 2 => Less(b[1], b[2])}
-GOpen(c) == {ks \in OpenBatches(c) : \A j \in DOMAIN ks : ks[j][1] \in PendKeys \cup {Pivot}}
-GDup == {ks \in DupBatches : ks[1][1] \in PendKeys}
-GClose == {o[1] : o \in opened} \cup {<<c, 0>> : c \in OutChans}
-GFail == PendKeys \cup {Pivot}
+                            /\ b[1] \in PendKeys \cup {Pivot}
+                            /\ Len(b) = 2 => (b[2] \in PendKeys /\ Less(b[1], b[2]) /\ Sometimes(2))}
+GOpen(c) == {ks \in OpenBatches(c) : (\A j \in DOMAIN ks : ks[j][1] \in HalfOpen) \/
+                                     (Len(ks) = 1 /\ ks[1][1] = Pivot /\ Sometimes(4))}
+GDup == {ks \in DupBatches : ks[1][1] \in HalfOpen /\ Sometimes(3)}
+GClose == {o[1] : o \in opened} \cup (IF Sometimes(5) THEN {<<Min(OutChans), 0>>} ELSE {})
+GFail == (PendKeys \ closed) \cup (IF Sometimes(4) THEN {Pivot} ELSE {})
+\* crashes are spread over the behaviour, failing start-up transactions are the rarer choice
+GCrashOk == Len(hist) >= CrashEvery * (ncrash + 1)
+GStartOk(ok) == ok \/ Sometimes(3)
 
 GInit == Init /\ hist = <<>>
 GNext ==
@@ -53,8 +61,8 @@ GNext ==
      \/ \E c \in OutChans : AdvanceIdx(c) /\ Log(Ev("AdvanceIdx", 0, <<>>, <<>>, c, TRUE))
      \/ \E c \in (InChans \cup OutChans) :
            Len(hist) >= CloseAfter /\ CloseChan(c) /\ Log(Ev("CloseChan", 0, <<>>, <<>>, c, TRUE))
-     \/ Crash /\ Log(Ev("Crash", 0, <<>>, <<>>, -1, TRUE))
-     \/ \E ok \in BOOLEAN :
+     \/ GCrashOk /\ Crash /\ Log(Ev("Crash", 0, <<>>, <<>>, -1, TRUE))
+     \/ \E ok \in {x \in BOOLEAN : GStartOk(x)} :
            \/ StartClean(ok) /\ Log(Ev("StartClean", 0, <<>>, <<>>, -1, ok))
            \/ StartRestore(ok) /\ Log(Ev("StartRestore", 0, <<>>, <<>>, -1, ok))
            \/ StartTrim(ok) /\ Log(Ev("StartTrim", 0, <<>>, <<>>, Head(trimTodo), ok))
